@@ -6,6 +6,7 @@ package main
 import (
 	"fmt"
 	"os"
+	"strconv"
 	"go/token"
 	"go/types"
 	"sort"
@@ -244,13 +245,51 @@ func (s *Session) callsiteSpec(calleeName string) *CallsiteSpec {
 	if s.con == nil {
 		return nil
 	}
+	match := func(pat string) bool {
+		return pat == calleeName || strings.HasSuffix(calleeName, "."+pat) || strings.HasSuffix(calleeName, ")."+pat) || strings.HasSuffix(calleeName, "/"+pat)
+	}
 	for _, cs := range s.con.Callsites {
-		if cs.Callee == calleeName || strings.HasSuffix(calleeName, "."+cs.Callee) || strings.HasSuffix(calleeName, ")."+cs.Callee) || strings.HasSuffix(calleeName, "/"+cs.Callee) {
+		pat := cs.Callee
+		if i := strings.LastIndex(pat, "#"); i > 0 {
+			// "f#k": the k-th call of f in the function under verification (instruction order)
+			k, err := strconv.Atoi(pat[i+1:])
+			if err != nil {
+				continue
+			}
+			if match(pat[:i]) && s.callOrdinal(pat[:i]) == k {
+				cs.used = true
+				return cs
+			}
+			continue
+		}
+		if match(pat) {
 			cs.used = true
 			return cs
 		}
 	}
 	return nil
+}
+
+// callOrdinal: position of the call being executed among the calls of the function under
+// verification whose callee matches pat (static instruction order; 0 if not found).
+func (s *Session) callOrdinal(pat string) int {
+	n := 0
+	for _, b := range s.fn.Blocks {
+		for _, in := range b.Instrs {
+			ci, ok := in.(ssa.CallInstruction)
+			if !ok {
+				continue
+			}
+			name := s.calleeName(ci.Common())
+			if name == pat || strings.HasSuffix(name, "."+pat) || strings.HasSuffix(name, ")."+pat) || strings.HasSuffix(name, "/"+pat) {
+				n++
+				if in == s.curInstr {
+					return n
+				}
+			}
+		}
+	}
+	return 0
 }
 
 func (s *Session) ghostAssign(st *State, env *Env, a Assign) {
